@@ -392,6 +392,9 @@ def gen_nearmiss(rng):
     if rng.random() < 0.7: wa = wo = w = max(1, itbl[0].bit_length()); wb = w
     stmt = rng.choice([f"s.o @= s.itbl[s.sel]", f"s.o @= s.a {op} s.itbl[s.sel]", f"s.o1 @= s.a {cmp_} s.itbl[s.sel]", f"s.o @= s.a & s.itbl[s.sel]"])
     lit = how
+    if rng.random() < 0.25:
+      # the element next to an integer LITERAL: python adds two plain ints in simulation (probe shape of the listed finding F-W15)
+      stmt = rng.choice([f"s.o @= s.itbl[s.sel] + 1", f"s.o @= s.itbl[s.sel] + {max(itbl)}", f"s.o @= (s.itbl[s.sel] << 1) | 1"]); lit = "with-literal:" + how
   elif shape == 26:
     # part selects  x[ base : base + K ]: legal only when BOTH bounds name the very same base; two bases that differ only in an
     # index, a field or a slice make a slice of run-time width, which the K-bit target refuses
@@ -496,6 +499,7 @@ def run_nearmiss(sh, case):
       if desc["shape"] == 25: sh.count("int_table_cases_accepted_and_raising")
       if desc["shape"] == 14 and "Integer -" in str(err):
         mech = "negative-integer-constant-operand-accepted-but-refused-by-simulation"
+      if desc["shape"] == 25 and str(lit).startswith("with-literal:"): mech = "int-table-element-and-literal-are-plain-python-ints-in-simulation"
       if desc["shape"] == 27: mech = "implicit-arithmetic-on-loop-variable-keeps-pre-enforcement-width"
       if desc["shape"] == 28: mech = "temporary-typed-once-in-textual-order-although-the-loop-retypes-it"
       sh.violation("checker-accepted-a-block-whose-simulation-raises-a-width-error", dict(desc, error=str(err)[:160], source=src), mechanism=mech, case=case)
